@@ -29,11 +29,12 @@ open QE QE.Pivot
 variable {α : Type} [Zero α] [One α] [Add α] [Sub α] [Mul α] [Div α] [Neg α] [LT α] [LE α]
   [DecidableLT α] [DecidableLE α] [BEq α]
 
-/-- `_initialize_tableau` (lcp_lemke.py 239-253): `[ I | -M | -d | q ]`. -/
+/-- `_initialize_tableau` (lcp_lemke.py 239-253): `[ I | 0-M | -d | q ]`; the `M` block is written as
+    `0. - M[i, j]` (so that unsigned integer `M` does not wrap, and a zero entry gives `+0.0`). -/
 def initTableau (n : Nat) (Mm : Nat → Nat → α) (q d : Nat → α) : M α :=
   M.tab n (2 * n + 2) fun i j =>
     if j < n then (if j = i then 1 else 0)
-    else if j < 2 * n then - Mm i (j - n)
+    else if j < 2 * n then 0 - Mm i (j - n)
     else if j = 2 * n then - d i
     else q i
 
@@ -152,7 +153,7 @@ def zeroFill (_zbuf : Nat → α) : Nat → α := fun _ => 0
 def initTableauBuf (n : Nat) (Mm : Nat → Nat → α) (q d : Nat → α) (tbuf : M α) : M α :=
   M.tab n (2 * n + 2) fun i j =>
     if j < n then (if j = i then 1 else 0)
-    else if j < 2 * n then - Mm i (j - n)
+    else if j < 2 * n then 0 - Mm i (j - n)
     else if j = 2 * n then - d i
     else if j = 2 * n + 1 then q i
     else tbuf.get i j
